@@ -10,18 +10,28 @@ SAFE_ATOMS = list("+-*â€ºâ€¹Nd:D_$\"W!^=<>wÉ¾Ên?,â€¦â‚´Â£Â¥â…›Â¾â€ Â¬âˆ§âˆ¨á¸ƒâ
 def observe(case):
     text, flags, inputs = case[:3]
     online = len(case) > 3 and case[3]
+    opts = case[4] if len(case) > 4 else {}
+    import sys
+
+    old = sys.getrecursionlimit()
     try:
-        return instrument.run_traced(text, flags, inputs, online=online)
+        if "reclimit" in opts:
+            sys.setrecursionlimit(opts["reclimit"])
+        t = instrument.run_traced(text, flags, inputs, online=online, budget=opts.get("budget", 200))
+        t["mustfail"] = bool(opts.get("mustfail", False))
+        return t
     except BaseException as e:  # noqa: BLE001  harness problem: report as such
         return {"text": common.cps(text), "flags": sorted(set(flags)), "inputs": [],
-                "online": online,
+                "online": online, "mustfail": False,
                 "ev": [{"ev": "Final", "stack": [], "out": [], "d": [0, 0, 0, 0], "raised": "harness:" + type(e).__name__,
                         "ctx": {"x": "?"}, "host": 0, "rec2": 0, "canary": 0}]}
+    finally:
+        sys.setrecursionlimit(old)
 
 
 def timed_out(case):
     text, flags, inputs = case[:3]
-    return {"text": common.cps(text), "flags": sorted(set(flags)), "inputs": [], "online": len(case) > 3 and case[3],
+    return {"text": common.cps(text), "flags": sorted(set(flags)), "inputs": [], "online": len(case) > 3 and case[3], "mustfail": False,
             "ev": [{"ev": "Final", "stack": [], "out": [], "d": [0, 0, 0, 0], "raised": "timeout", "ctx": {"x": "?"},
                     "host": 0, "rec2": 0, "canary": 0}]}
 
